@@ -8,20 +8,33 @@
 (* The monitor state is one record `ps`; every event is a pure function F..(ps, ..), so the   *)
 (* implementation-shaped spec CContainer.tla can fire several events in one atomic action.    *)
 (*                                                                                          *)
-(* Linearisation points.  A SwapValue callback is harness-owned and logs `swapcb` from inside *)
-(* the critical section: that event IS the swap.  SetValue / GetValue / SwapValue(nil) give   *)
-(* the harness no callback; they are linearised at their `ret` event.  This is exact under    *)
-(* the deterministic controller, where the critical section and the return of a call happen   *)
-(* within one controller step and no other access to the cell can run in between.             *)
+(* Atomicity (first sentence of the statement) is read as LINEARIZABILITY of GetValue,        *)
+(* SetValue and SwapValue on one cell: every call takes effect at one instant between its     *)
+(* `call` and its `ret` event; in particular a call that has RETURNED has taken effect before *)
+(* any call ISSUED afterwards.  What the trace shows about that instant:                      *)
+(*   * SwapValue(cb): the harness-owned callback logs `swapcb` (in, out) from INSIDE the      *)
+(*     critical section, immediately before it returns `out`: that event IS the swap (exact,  *)
+(*     whatever the scheduler does between the critical section and the return of the call).  *)
+(*     A LONG callback stays inside the critical section over several controller steps and    *)
+(*     logs `swapcb` when it is let go; the `swapin` event it logs on entry is not used here  *)
+(*     (weaker reading W1 below).                                                            *)
+(*   * SetValue / GetValue / SwapValue(nil) give the harness no callback.  The monitor does    *)
+(*     NOT take their logged return as the instant (the logged return can be separated from   *)
+(*     the critical section by other clients' steps: sched.Exec.ParkUnl, or a goroutine that  *)
+(*     merely has not logged yet).  It keeps the SET `cfgs` of all configurations             *)
+(*     [v: content, lin: {<<id, value read>>} calls in flight that have already taken effect]  *)
+(*     that some linearization of the events so far allows (closed under "a call in flight    *)
+(*     takes effect now").  `ret` of a call keeps the configurations in which it has taken    *)
+(*     effect (with the value it returned, for reads); `swapcb` keeps those whose content is  *)
+(*     the callback's input.  No configuration left = no linearization exists.                *)
 (*                                                                                          *)
 (* Reading of the statement (weaker readings where it is silent):                            *)
 (*  R1 SetValue(v) / a swap result v when v is equal to the content under the equality but    *)
-(*     not identical: the cell may afterwards hold either the old value or v.  `cell` is      *)
-(*     therefore the SET of values the cell may hold (all equal under the equality); a read   *)
-(*     narrows it to the value read.                                                         *)
+(*     not identical: the cell may afterwards hold either the old value or v (two             *)
+(*     configurations); a read keeps the one it saw.                                          *)
 (*  R2 SwapValue's return value is not constrained.                                           *)
 (*  R3 a waiter's value must be in `seen` (everything the cell may have held since the call   *)
-(*     event) and satisfy the wait condition, evaluated by the monitor itself:                *)
+(*     event, in any configuration) and satisfy the wait condition, evaluated by the monitor: *)
 (*       value, validnil: not Eq(0, v)   change: not Eq(old, v)   empty: Eq(0, v)             *)
 (*       valid: harness validator  v = ve -> error,  v >= k -> true                           *)
 (*     WaitValueEmpty returns no value: some member of `seen` must be empty.                  *)
@@ -32,14 +45,24 @@
 (*     context was cancelled / whose error channel fired returns (the statement says "only    *)
 (*     if"); a nil error on the channel need not have any effect.                             *)
 (*  R5 "never remain blocked while the content satisfies the condition": at library-quiescent *)
-(*     points a blocked waiter is reported only if EVERY value the cell may hold satisfies    *)
-(*     its condition.                                                                        *)
+(*     points a blocked waiter is reported only if the content satisfies its condition in     *)
+(*     EVERY configuration.                                                                  *)
+(*  W1 "a SwapValue callback's update is never lost or interleaved with another writer" is    *)
+(*     judged as linearizability as well: the swap is ONE instant (the callback's return);    *)
+(*     SwapStale = at that instant no linearization gives the cell the callback's input.  A   *)
+(*     writer that took effect while a long callback was running is reported only through     *)
+(*     that (a write that restores the input value, or a read, in between is not reported).   *)
+(*  W2 the monitor is sound under sched.Exec.Double / ParkUnl: it never uses the position of  *)
+(*     a `ret` event for more than "the call has taken effect by now"; waiters are judged by  *)
+(*     `seen` (monotone) and quiescence only when nothing is parked anywhere.                 *)
 EXTENDS Integers, FiniteSets, Sequences, TLC
 
 VARIABLE ps
 pvars == <<ps>>
 
-PS0 == [ cell  |-> {0},     \* values the cell may hold now (R1)
+Cfg0(v) == [v |-> v, lin |-> {}]
+
+PS0 == [ cfgs  |-> {Cfg0(0)},  \* possible configurations (see above)
          m     |-> 0,       \* equality modulus, 0 = plain ==
          calls |-> <<>>,    \* call id -> record (op-specific fields + st, seen, sent, ecl, verr)
          canc  |-> {},      \* waiter ids whose context was cancelled
@@ -62,21 +85,44 @@ Cond(m, r, v) ==
       [] r.kind = "empty"  -> Eq(m, 0, v)
       [] r.kind = "valid"  -> v # r.ve /\ v >= r.k
 
-\* the cell may now hold the values in c: every pending waiter may have seen them
-SetCell(s, c) ==
-    [s EXCEPT !.cell = c,
+-----------------------------------------------------------------------------
+(* Configurations *)
+
+Vals(C) == {c.v : c \in C}
+LinIds(c) == {x[1] : x \in c.lin}
+Unlin(c, id) == [c EXCEPT !.lin = {x \in @ : x[1] # id}]
+
+\* calls in flight whose instant of effect the trace does not show
+Hidden(s) == {i \in Ids(s) : s.calls[i].op \in {"set", "get", "swapnil"} /\ s.calls[i].st = "pending"}
+
+\* contents after v is stored over content old (R1)
+StoreV(m, old, v) == IF old = v THEN {v} ELSE IF Eq(m, old, v) THEN {old, v} ELSE {v}
+
+\* call i (in flight, hidden) takes effect in configuration c
+Lin1(s, c, i) ==
+    LET r == s.calls[i] IN
+    IF r.op = "set"
+    THEN {[v |-> w, lin |-> c.lin \cup {<<i, -1>>}] : w \in StoreV(s.m, c.v, r.v)}
+    ELSE {[v |-> c.v, lin |-> c.lin \cup {<<i, c.v>>}]}
+
+Expand(s, C) == C \cup UNION {UNION {Lin1(s, c, i) : i \in Hidden(s) \ LinIds(c)} : c \in C}
+RECURSIVE Close(_, _)
+Close(s, C) == LET D == Expand(s, C) IN IF D = C THEN C ELSE Close(s, D)
+
+\* the possible configurations are now C: every pending waiter may have seen their contents
+SetCfgs(s, C) ==
+    [s EXCEPT !.cfgs = C,
               !.calls = [i \in Ids(s) |->
                            IF IsWait(s.calls[i]) /\ s.calls[i].st = "pending"
-                           THEN [s.calls[i] EXCEPT !.seen = @ \cup c] ELSE s.calls[i]]]
+                           THEN [s.calls[i] EXCEPT !.seen = @ \cup Vals(C)] ELSE s.calls[i]]]
 
-\* v is stored over a cell that may hold the values base (R1)
-Stored(m, base, v) == IF \E c \in base : Eq(m, c, v) THEN base \cup {v} ELSE {v}
+Reclose(s) == SetCfgs(s, Close(s, s.cfgs))
 
 -----------------------------------------------------------------------------
 (* Events as functions *)
 
 \* the container is created with value v and equality modulus m
-FInit(s, v, m) == [s EXCEPT !.cell = {v}, !.m = m]
+FInit(s, v, m) == [s EXCEPT !.cfgs = {Cfg0(v)}, !.m = m]
 
 \* a call starts; e carries op ("set": v | "swap": d | "swapnil" | "get" |
 \* "wait": kind, old, k, ve) -- only the fields of its op are read
@@ -84,17 +130,30 @@ FCall(s, id, e) ==
     LET s1 == Flag(s, id \in Ids(s), "Harness")
         r == IF e.op = "wait"
              THEN [op |-> "wait", kind |-> e.kind, old |-> e.old, k |-> e.k, ve |-> e.ve, st |-> "pending",
-                   seen |-> s.cell, sent |-> FALSE, ecl |-> FALSE, verr |-> FALSE]
+                   seen |-> Vals(s.cfgs), sent |-> FALSE, ecl |-> FALSE, verr |-> FALSE]
              ELSE IF e.op = "set" THEN [op |-> "set", v |-> e.v, st |-> "pending"]
              ELSE [op |-> e.op, st |-> "pending"]
-    IN [s1 EXCEPT !.calls = (id :> r) @@ @]
+        s2 == [s1 EXCEPT !.calls = (id :> r) @@ @]
+    IN IF e.op \in {"set", "get", "swapnil"} THEN Reclose(s2) ELSE s2
 
-\* the SwapValue callback of call id runs (under the lock) on value in and returns out
+PendingSwap(s, id) == id \in Ids(s) /\ s.calls[id].op = "swap" /\ s.calls[id].st = "pending"
+
+\* the (long) SwapValue callback of call id has been entered with value in: not judged (W1)
+FSwapIn(s, id, in) == Flag(s, ~PendingSwap(s, id), "Harness")
+
+\* the SwapValue callback of call id (under the lock) was given value in and now returns out:
+\* the swap takes effect.  When no configuration has content `in` the result is stored over
+\* whatever the cell may hold (that is what a non-atomic swap does) and the monitor goes on.
 FSwapCb(s, id, in, out) ==
-    LET s1 == Flag(Flag(s, in \notin s.cell, "SwapStale"),
-                   id \notin Ids(s) \/ s.calls[id].op # "swap" \/ s.calls[id].st # "pending", "Harness")
-        base == IF in \in s.cell THEN {in} ELSE s.cell
-    IN SetCell(s1, Stored(s.m, base, out))
+    LET K == {c \in s.cfgs : c.v = in}
+        late == id \in Ids(s) /\ s.calls[id].op = "swap" /\ s.calls[id].st = "returned"
+        \* the callback of a SwapValue call that has already returned: the call returned before
+        \* it took effect (never in a SwapValue that runs its callback itself)
+        s0 == Flag(Flag(s, K = {}, "SwapStale"), late, "SwapAfterReturn")
+        s1 == Flag(s0, ~late /\ ~PendingSwap(s, id), "Harness")
+        base == IF K # {} THEN K ELSE s.cfgs
+        C == UNION {{[c EXCEPT !.v = w] : w \in StoreV(s.m, c.v, out)} : c \in base}
+    IN SetCfgs(s1, Close(s1, C))
 
 \* the harness validator of waiter id was called with v and returned res ("t" | "f" | "e")
 FValid(s, id, v, res) ==
@@ -106,18 +165,23 @@ FRet(s, id, res, val) ==
     IF id \notin Ids(s) \/ s.calls[id].st # "pending" THEN Flag(s, TRUE, "Harness") ELSE
     LET r == s.calls[id]
         done == [s EXCEPT !.calls[id].st = "returned"]
-    IN CASE r.op = "set" -> SetCell(done, Stored(s.m, s.cell, r.v))
+        L == {c \in s.cfgs : id \in LinIds(c)}     \* the configurations in which it has taken effect
+        Keep(C) == [done EXCEPT !.cfgs = {Unlin(c, id) : c \in C}]
+    IN CASE r.op = "set" -> IF L = {} THEN Flag(done, TRUE, "Harness") ELSE Keep(L)
          [] r.op \in {"get", "swapnil"} ->
-                IF val \in s.cell THEN SetCell(done, {val}) ELSE Flag(done, TRUE, "ReadWrong")
+                LET K == {c \in L : <<id, val>> \in c.lin} IN
+                IF K # {} THEN Keep(K)
+                ELSE IF L = {} THEN Flag(done, TRUE, "Harness")
+                ELSE Flag(Keep(L), TRUE, "ReadWrong")
          [] r.op = "swap" -> done
          [] r.op = "wait" ->
-                LET c == id \in s.canc \/ r.ecl
+                LET cx == id \in s.canc \/ r.ecl
                     held == IF r.kind = "empty" THEN TRUE ELSE val \in r.seen
                     sat == IF r.kind = "empty" THEN \E v \in r.seen : Cond(s.m, r, v)
                            ELSE Cond(s.m, r, val)
                     s1 == Flag(done, res = "ok" /\ ~held, "WaitNeverHeld")
                     s2 == Flag(s1, res = "ok" /\ held /\ ~sat, "WaitUnsatisfied")
-                    s3 == Flag(s2, res = "canceled" /\ ~c, "SpuriousCancel")
+                    s3 == Flag(s2, res = "canceled" /\ ~cx, "SpuriousCancel")
                     s4 == Flag(s3, res = "errch" /\ ~r.sent, "SpuriousErr")
                     s5 == Flag(s4, res = "verr" /\ ~r.verr, "SpuriousErr")
                 IN Flag(s5, res \notin {"ok", "canceled", "errch", "verr"}, "UnknownResult")
@@ -133,7 +197,7 @@ FFire(s, id, what) ==
 
 \* no library step is possible and exactly the waiters in B are blocked
 QuietBad(s, B) ==
-    (IF \E b \in B \cap PendingWaits(s) : \A v \in s.cell : Cond(s.m, s.calls[b], v)
+    (IF \E b \in B \cap PendingWaits(s) : \A v \in Vals(s.cfgs) : Cond(s.m, s.calls[b], v)
      THEN {"Stuck"} ELSE {})
     \cup (IF B \subseteq PendingWaits(s) THEN {} ELSE {"Harness"})
 
@@ -143,6 +207,7 @@ FQuiet(s, B) == [s EXCEPT !.bad = @ \cup QuietBad(s, B)]
 (* Events as actions (trace spec) *)
 PInitC(v, m) == ps' = FInit(ps, v, m)
 PCall(id, e) == ps' = FCall(ps, id, e)
+PSwapIn(id, in) == ps' = FSwapIn(ps, id, in)
 PSwapCb(id, in, out) == ps' = FSwapCb(ps, id, in, out)
 PValid(id, v, res) == ps' = FValid(ps, id, v, res)
 PRet(id, res, val) == ps' = FRet(ps, id, res, val)
@@ -154,7 +219,7 @@ PUnexplained == ps' = Flag(ps, TRUE, "Unexplained")
 -----------------------------------------------------------------------------
 (* The property *)
 bad == ps.bad
-C15Names == {"SwapStale", "ReadWrong", "WaitNeverHeld", "WaitUnsatisfied", "SpuriousCancel",
+C15Names == {"SwapStale", "SwapAfterReturn", "ReadWrong", "WaitNeverHeld", "WaitUnsatisfied", "SpuriousCancel",
              "SpuriousErr", "UnknownResult", "Stuck"}
 Safe_C15 == bad \cap C15Names = {}
 NoHarnessError == "Harness" \notin bad
